@@ -1,6 +1,1233 @@
-//! C15 — not implemented yet.
-use crate::core::Ctx;
-use serde_json::Value;
+//! C15 — the generated OpenAPI document is valid and describes exactly the application (DESIGN §5 C15).
+//!
+//! application = (route table, handler signature per (route, method), declaration shape, registration order,
+//! tags, JWT / BasicAuth fangs at root / on a mounted child / local to one handler).  Handlers come from a
+//! compile-time catalogue (`cat`), each with a hand-written expectation record; applications are assembled at
+//! run time through hook H1 (`DynRouting`).  Per application the real `Ohkami::__openapi_document_bytes__` is
+//! called once, the document is compared with the route table computed from the description, and one request
+//! per documented operation is **built from the document** and sent through the real read → router → send
+//! path of the same `Ohkami`.  Every distinct schema object found in a document is dumped (keyed by a hash)
+//! into `$VERIF_SHARD_WORK/c15_schemas.json`; `lib/c15_runner.py` validates the dumps under Draft 2020-12.
+//!
+//! Helpers that other engines keep in appgen.rs (description types, fangs, builder, flatten) live in this file
+//! because appgen's `MethodDesc` only knows echo handlers.
 
-pub fn run(ctx: &mut Ctx) { ctx.machinery_error("C15 engine not implemented".into()); }
-pub fn replay(ctx: &mut Ctx, _case: &Value) { ctx.machinery_error("C15 engine not implemented".into()); }
+use crate::app::{self, Outcome};
+use crate::appgen;
+use crate::core::{combinations, guarded, panic_kind, Ctx};
+use crate::engines::c01;
+use ohkami::__verif__::{DynItem, DynRouting, HandlerSet, VerifRouter};
+use ohkami::fang::{BasicAuth, JWT};
+use ohkami::handler::IntoHandler;
+use ohkami::openapi;
+use ohkami::{Fang, FangProc, Ohkami, Request, Response, Route};
+use serde_json::{json, Map, Value};
+use std::cell::RefCell;
+use std::collections::{BTreeMap, BTreeSet, HashMap};
+
+pub const SEGS: [&str; 4] = ["a", "b", ":p", ":q"];
+const JWT_SECRET: &str = "c15-secret-key-for-hs256";
+const BASIC_USER: &str = "user";
+const BASIC_PASS: &str = "pass";
+const METHODS: [&str; 5] = ["GET", "PUT", "POST", "PATCH", "DELETE"];
+
+/* ------------------------------------------------------------------------------------------------
+   what a catalogue handler leaves behind when it runs (per thread; engines are single-threaded)
+------------------------------------------------------------------------------------------------ */
+
+thread_local! {
+    static HITS: RefCell<Vec<(&'static str, Vec<String>)>> = const { RefCell::new(Vec::new()) };
+}
+fn hit(id: &'static str, params: Vec<String>) { HITS.with(|h| h.borrow_mut().push((id, params))) }
+fn hits_take() -> Vec<(&'static str, Vec<String>)> { HITS.with(|h| std::mem::take(&mut *h.borrow_mut())) }
+
+/* ------------------------------------------------------------------------------------------------
+   the compile-time catalogue of handler signatures
+------------------------------------------------------------------------------------------------ */
+
+/// What the property statement makes the document say about one handler signature.  Written by hand from the
+/// framework's documentation of extractors / return types (README "OpenAPI" section, rustdoc of `format::*`,
+/// `typed::status::*`, `IntoResponse::openapi_responses`), **not** from running the generator.
+pub struct Expect {
+    /// JSON type of each path param the handler takes, in order (`String`/`&str` → string, integers → integer)
+    pub params: &'static [&'static str],
+    /// query parameters: (name, required)
+    pub query: &'static [(&'static str, bool)],
+    /// request body media type
+    pub body: Option<&'static str>,
+    /// response statuses (or `default`) and their media type
+    pub responses: &'static [(&'static str, Option<&'static str>)],
+    /// a body the handler accepts, for requests built from the *description* (the `undocumented` probe)
+    pub sample_body: &'static str,
+    /// query string the handler accepts (same purpose)
+    pub sample_query: &'static str,
+}
+
+type RegFn = fn(Result<HandlerSet, &'static str>, &str, Option<DynFang>) -> HandlerSet;
+pub struct Entry { pub id: &'static str, pub exp: Expect, reg: RegFn }
+impl Entry { pub fn n_params(&self) -> usize { self.exp.params.len() } }
+
+fn reg<T, H: IntoHandler<T>>(set: Result<HandlerSet, &'static str>, method: &str, h: H) -> HandlerSet {
+    match set {
+        Err(route) => match method {
+            "GET" => route.GET(h), "PUT" => route.PUT(h), "POST" => route.POST(h), "PATCH" => route.PATCH(h), "DELETE" => route.DELETE(h),
+            m => panic!("c15: method {m} cannot be registered"),
+        },
+        Ok(s) => match method {
+            "GET" => s.GET(h), "PUT" => s.PUT(h), "POST" => s.POST(h), "PATCH" => s.PATCH(h), "DELETE" => s.DELETE(h),
+            m => panic!("c15: method {m} cannot be registered"),
+        },
+    }
+}
+
+pub mod cat {
+    use super::{hit, reg, Entry, Expect};
+    use ohkami::format::{Multipart, Query, URLEncoded, JSON};
+    use ohkami::openapi::{self, Schema};
+    use ohkami::serde::{Deserialize, Serialize};
+    use ohkami::typed::status;
+    use ohkami::{IntoResponse, Response};
+
+    /* ---- schemas ---- */
+
+    #[derive(Serialize, Schema)]
+    #[openapi(component)]
+    pub struct User { id: u64, name: String }
+    fn user() -> User { User { id: 1, name: "n".into() } }
+
+    #[derive(Serialize, Schema)]
+    pub struct Item { sku: String, qty: u32, note: Option<String> }
+    fn item() -> Item { Item { sku: "s".into(), qty: 1, note: None } }
+
+    #[derive(Deserialize, Schema)]
+    pub struct ListQuery { name: String, limit: Option<u32> }
+
+    #[derive(Deserialize, Schema)]
+    #[openapi(component)]
+    pub struct PageQuery { page: u32, size: Option<u32> }
+
+    #[derive(Deserialize, Schema)]
+    pub struct CreateUser { name: String, age: Option<u8> }
+
+    #[derive(Deserialize, Schema)]
+    #[openapi(component)]
+    pub struct Address { city: String, zip: Option<String> }
+
+    /// contains a nested derived type (a component) and an array
+    #[derive(Deserialize, Schema)]
+    pub struct Order { item: String, qty: u32, ship_to: Address, tags: Vec<String> }
+
+    #[derive(Deserialize, Schema)]
+    pub struct Login { user: String, pass: String, remember: Option<u8> }
+
+    #[derive(Deserialize, Schema)]
+    pub struct Upload { title: String, note: Option<String> }
+
+    /// the only way to describe a boolean member: `schema_with` + the exported constructor `openapi::bool()`
+    #[derive(Deserialize, Schema)]
+    pub struct Flags { name: String, #[openapi(schema_with = "ohkami::openapi::bool")] active: bool }
+
+    /// a hand-written schema through the public constructors
+    #[derive(Deserialize)]
+    pub struct Range { lo: i32 }
+    impl Schema for Range {
+        fn schema() -> impl Into<openapi::schema::SchemaRef> {
+            openapi::object().property("lo", openapi::integer().exclusiveMinimum(0))
+        }
+    }
+
+    #[derive(Serialize, Schema)]
+    #[openapi(component)]
+    pub struct ErrBody { code: u16, message: String }
+
+    pub struct AppErr;
+    impl IntoResponse for AppErr {
+        fn into_response(self) -> Response { Response::NotFound() }
+        fn openapi_responses() -> openapi::Responses {
+            openapi::Responses::new([(404, openapi::Response::when("not found"))])
+                .or(500, openapi::Response::when("failure").content("application/json", <ErrBody as Schema>::schema()))
+        }
+    }
+
+    /* ---- handlers: no path param ---- */
+
+    pub async fn h_text() -> &'static str { hit("h_text", vec![]); "ok" }
+    pub async fn h_string() -> String { hit("h_string", vec![]); "ok".into() }
+    pub async fn h_unit() { hit("h_unit", vec![]); }
+    pub async fn h_json() -> JSON<Item> { hit("h_json", vec![]); JSON(item()) }
+    pub async fn h_created() -> status::Created<JSON<User>> { hit("h_created", vec![]); status::Created(JSON(user())) }
+    pub async fn h_created_text() -> status::Created<String> { hit("h_created_text", vec![]); status::Created("made".into()) }
+    pub async fn h_nocontent() -> status::NoContent { hit("h_nocontent", vec![]); status::NoContent }
+    pub async fn h_query(Query(q): Query<ListQuery>) -> JSON<Vec<User>> { let _ = (q.name, q.limit); hit("h_query", vec![]); JSON(vec![user()]) }
+    pub async fn h_query_comp(Query(q): Query<PageQuery>) -> String { let _ = (q.page, q.size); hit("h_query_comp", vec![]); "ok".into() }
+    pub async fn h_body_json(JSON(b): JSON<CreateUser>) -> status::Created<JSON<User>> { let _ = (b.name, b.age); hit("h_body_json", vec![]); status::Created(JSON(user())) }
+    pub async fn h_body_nested(JSON(b): JSON<Order>) -> JSON<Item> { let _ = (b.item, b.qty, b.ship_to.city, b.ship_to.zip, b.tags); hit("h_body_nested", vec![]); JSON(item()) }
+    pub async fn h_body_form(URLEncoded(b): URLEncoded<Login>) -> String { let _ = (b.user, b.pass, b.remember); hit("h_body_form", vec![]); "ok".into() }
+    pub async fn h_body_multipart(Multipart(b): Multipart<Upload>) -> status::NoContent { let _ = (b.title, b.note); hit("h_body_multipart", vec![]); status::NoContent }
+    pub async fn h_result() -> Result<JSON<User>, AppErr> { hit("h_result", vec![]); Ok(JSON(user())) }
+    #[openapi::operation(listThings { summary: "list the things", 200: "All things" })]
+    /// documented through the `operation` attribute
+    pub async fn h_operation() -> JSON<Vec<Item>> { hit("h_operation", vec![]); JSON(vec![item()]) }
+    pub async fn h_bool(JSON(b): JSON<Flags>) -> status::OK { let _ = (b.name, b.active); hit("h_bool", vec![]); status::OK(()) }
+    pub async fn h_excl(JSON(b): JSON<Range>) -> String { let _ = b.lo; hit("h_excl", vec![]); "ok".into() }
+    pub async fn h_query_body(Query(q): Query<ListQuery>, JSON(b): JSON<CreateUser>) -> JSON<User> { let _ = (q.name, q.limit, b.name, b.age); hit("h_query_body", vec![]); JSON(user()) }
+
+    /* ---- handlers: one path param (forms `P` and `(P,)`) ---- */
+
+    pub async fn h1_str(id: String) -> String { hit("h1_str", vec![id]); "ok".into() }
+    pub async fn h1_int((id,): (u32,)) -> JSON<User> { hit("h1_int", vec![id.to_string()]); JSON(user()) }
+    pub async fn h1_ref(id: &str) -> status::NoContent { hit("h1_ref", vec![id.to_string()]); status::NoContent }
+    pub async fn h1_query(id: u64, Query(q): Query<ListQuery>) -> JSON<Vec<User>> { let _ = (q.name, q.limit); hit("h1_query", vec![id.to_string()]); JSON(vec![]) }
+    pub async fn h1_body((id,): (String,), JSON(b): JSON<CreateUser>) -> Result<status::Created<JSON<User>>, AppErr> { let _ = (b.name, b.age); hit("h1_body", vec![id]); Ok(status::Created(JSON(user()))) }
+    pub async fn h1_form(id: u32, URLEncoded(b): URLEncoded<Login>) -> status::NoContent { let _ = (b.user, b.pass, b.remember); hit("h1_form", vec![id.to_string()]); status::NoContent }
+
+    /* ---- handlers: two path params (form `(P1, P2)`) ---- */
+
+    pub async fn h2_mixed((a, b): (String, u32)) -> String { hit("h2_mixed", vec![a, b.to_string()]); "ok".into() }
+    pub async fn h2_ints((a, b): (u64, u64)) -> Result<status::NoContent, AppErr> { hit("h2_ints", vec![a.to_string(), b.to_string()]); Ok(status::NoContent) }
+    pub async fn h2_query((a, b): (u32, String), Query(q): Query<ListQuery>) -> JSON<User> { let _ = (q.name, q.limit); hit("h2_query", vec![a.to_string(), b]); JSON(user()) }
+    pub async fn h2_body((a, b): (String, String), JSON(x): JSON<CreateUser>) -> status::Created<JSON<User>> { let _ = (x.name, x.age); hit("h2_body", vec![a, b]); status::Created(JSON(user())) }
+
+    /* ---- expectation records ---- */
+
+    const TEXT: Option<&str> = Some("text/plain");
+    const JS: Option<&str> = Some("application/json");
+    const FORM: &str = "application/x-www-form-urlencoded";
+    const LIST_Q: &[(&str, bool)] = &[("name", true), ("limit", false)];
+    const APP_ERR: [(&str, Option<&str>); 2] = [("404", None), ("500", JS)];
+    const MP_BODY: &str = "--c15b\r\nContent-Disposition: form-data; name=\"title\"\r\n\r\nt\r\n--c15b--\r\n";
+
+    macro_rules! entry {
+        ($h:ident, params: $p:expr, query: $q:expr, body: $b:expr, responses: $r:expr, sample: ($sq:expr, $sb:expr)) => {
+            Entry { id: stringify!($h),
+                exp: Expect { params: $p, query: $q, body: $b, responses: $r, sample_query: $sq, sample_body: $sb },
+                reg: |set, m, lf| match lf { None => reg(set, m, $h), Some(f) => reg(set, m, (f, $h)) } }
+        };
+    }
+
+    pub fn catalogue() -> Vec<Entry> {
+        vec![
+            entry!(h_text,        params: &[], query: &[], body: None, responses: &[("200", TEXT)], sample: ("", "")),
+            entry!(h_string,      params: &[], query: &[], body: None, responses: &[("200", TEXT)], sample: ("", "")),
+            entry!(h_unit,        params: &[], query: &[], body: None, responses: &[("200", None)], sample: ("", "")),
+            entry!(h_json,        params: &[], query: &[], body: None, responses: &[("200", JS)], sample: ("", "")),
+            entry!(h_created,     params: &[], query: &[], body: None, responses: &[("201", JS)], sample: ("", "")),
+            entry!(h_created_text, params: &[], query: &[], body: None, responses: &[("201", TEXT)], sample: ("", "")),
+            entry!(h_nocontent,   params: &[], query: &[], body: None, responses: &[("204", None)], sample: ("", "")),
+            entry!(h_query,       params: &[], query: LIST_Q, body: None, responses: &[("200", JS)], sample: ("name=n", "")),
+            entry!(h_query_comp,  params: &[], query: &[("page", true), ("size", false)], body: None, responses: &[("200", TEXT)], sample: ("page=1", "")),
+            entry!(h_body_json,   params: &[], query: &[], body: JS, responses: &[("201", JS)], sample: ("", r#"{"name":"n"}"#)),
+            entry!(h_body_nested, params: &[], query: &[], body: JS, responses: &[("200", JS)], sample: ("", r#"{"item":"i","qty":1,"ship_to":{"city":"c"},"tags":[]}"#)),
+            entry!(h_body_form,   params: &[], query: &[], body: Some(FORM), responses: &[("200", TEXT)], sample: ("", "user=u&pass=p")),
+            entry!(h_body_multipart, params: &[], query: &[], body: Some("multipart/form-data"), responses: &[("204", None)], sample: ("", MP_BODY)),
+            entry!(h_result,      params: &[], query: &[], body: None, responses: &[("200", JS), APP_ERR[0], APP_ERR[1]], sample: ("", "")),
+            entry!(h_operation,   params: &[], query: &[], body: None, responses: &[("200", JS)], sample: ("", "")),
+            entry!(h_bool,        params: &[], query: &[], body: JS, responses: &[("200", None)], sample: ("", r#"{"name":"n","active":true}"#)),
+            entry!(h_excl,        params: &[], query: &[], body: JS, responses: &[("200", TEXT)], sample: ("", r#"{"lo":1}"#)),
+            entry!(h_query_body,  params: &[], query: LIST_Q, body: JS, responses: &[("200", JS)], sample: ("name=n", r#"{"name":"n"}"#)),
+
+            entry!(h1_str,   params: &["string"], query: &[], body: None, responses: &[("200", TEXT)], sample: ("", "")),
+            entry!(h1_int,   params: &["integer"], query: &[], body: None, responses: &[("200", JS)], sample: ("", "")),
+            entry!(h1_ref,   params: &["string"], query: &[], body: None, responses: &[("204", None)], sample: ("", "")),
+            entry!(h1_query, params: &["integer"], query: LIST_Q, body: None, responses: &[("200", JS)], sample: ("name=n", "")),
+            entry!(h1_body,  params: &["string"], query: &[], body: JS, responses: &[("201", JS), APP_ERR[0], APP_ERR[1]], sample: ("", r#"{"name":"n"}"#)),
+            entry!(h1_form,  params: &["integer"], query: &[], body: Some(FORM), responses: &[("204", None)], sample: ("", "user=u&pass=p")),
+
+            entry!(h2_mixed, params: &["string", "integer"], query: &[], body: None, responses: &[("200", TEXT)], sample: ("", "")),
+            entry!(h2_ints,  params: &["integer", "integer"], query: &[], body: None, responses: &[("204", None), APP_ERR[0], APP_ERR[1]], sample: ("", "")),
+            entry!(h2_query, params: &["integer", "string"], query: LIST_Q, body: None, responses: &[("200", JS)], sample: ("name=n", "")),
+            entry!(h2_body,  params: &["string", "string"], query: &[], body: JS, responses: &[("201", JS)], sample: ("", r#"{"name":"n"}"#)),
+        ]
+    }
+}
+use cat::catalogue;
+
+/// leaked once per process: the catalogue is read-only
+fn entries() -> &'static [Entry] {
+    thread_local! { static LEAKED: &'static [Entry] = Box::leak(catalogue().into_boxed_slice()); }
+    LEAKED.with(|l| *l)
+}
+fn entry(id: &str) -> Option<&'static Entry> { entries().iter().find(|e| e.id == id) }
+
+/* ------------------------------------------------------------------------------------------------
+   fangs: one run-time type over Tag / JWT / BasicAuth, delegating to the real implementations
+------------------------------------------------------------------------------------------------ */
+
+#[derive(serde::Serialize, serde::Deserialize)]
+pub struct Claims { sub: String, exp: u64 }
+
+fn jwt() -> JWT<Claims> { JWT::default(JWT_SECRET) }
+fn basic() -> BasicAuth<String> { BasicAuth { username: BASIC_USER.to_string(), password: BASIC_PASS.to_string() } }
+
+#[derive(Clone)]
+pub enum DynFang { Tag(&'static str), Jwt(JWT<Claims>), Basic(BasicAuth<String>) }
+pub enum DynProc<I: FangProc> {
+    Pass(I),
+    Jwt(<JWT<Claims> as Fang<I>>::Proc),
+    Basic(<BasicAuth<String> as Fang<I>>::Proc),
+}
+impl<I: FangProc> Fang<I> for DynFang {
+    type Proc = DynProc<I>;
+    fn chain(&self, inner: I) -> Self::Proc {
+        match self {
+            DynFang::Tag(t) => DynProc::Pass(<openapi::Tag as Fang<I>>::chain(&openapi::Tag(t), inner)),
+            DynFang::Jwt(j) => DynProc::Jwt(<JWT<Claims> as Fang<I>>::chain(j, inner)),
+            DynFang::Basic(b) => DynProc::Basic(<BasicAuth<String> as Fang<I>>::chain(b, inner)),
+        }
+    }
+    fn openapi_map_operation(&self, op: openapi::Operation) -> openapi::Operation {
+        match self {
+            DynFang::Tag(t) => <openapi::Tag as Fang<I>>::openapi_map_operation(&openapi::Tag(t), op),
+            DynFang::Jwt(j) => <JWT<Claims> as Fang<I>>::openapi_map_operation(j, op),
+            DynFang::Basic(b) => <BasicAuth<String> as Fang<I>>::openapi_map_operation(b, op),
+        }
+    }
+}
+impl<I: FangProc> FangProc for DynProc<I> {
+    async fn bite<'b>(&'b self, req: &'b mut Request) -> Response {
+        match self {
+            DynProc::Pass(p) => p.bite(req).await,
+            DynProc::Jwt(p) => p.bite(req).await,
+            DynProc::Basic(p) => p.bite(req).await,
+        }
+    }
+}
+
+/* ------------------------------------------------------------------------------------------------
+   descriptions
+------------------------------------------------------------------------------------------------ */
+
+#[derive(Clone, Debug, PartialEq, Eq, Hash, serde::Serialize, serde::Deserialize)]
+pub enum FangD { Tag(String), Jwt, Basic }
+impl FangD {
+    fn is_auth(&self) -> bool { !matches!(self, FangD::Tag(_)) }
+    fn kind(&self) -> &'static str { match self { FangD::Tag(_) => "tag", FangD::Jwt => "jwt", FangD::Basic => "basic" } }
+}
+
+#[derive(Clone, Debug, PartialEq, Eq, Hash, serde::Serialize, serde::Deserialize)]
+pub struct MethD {
+    /// GET | PUT | POST | PATCH | DELETE
+    pub method: String,
+    /// catalogue id
+    pub h: String,
+    #[serde(default, skip_serializing_if = "Vec::is_empty")]
+    pub local: Vec<FangD>,
+}
+
+#[derive(Clone, Debug, PartialEq, Eq, Hash, serde::Serialize, serde::Deserialize)]
+pub enum ItemD {
+    Route { path: String, methods: Vec<MethD> },
+    Mount { prefix: String, app: AppD },
+    Inline { app: AppD },
+}
+
+#[derive(Clone, Debug, Default, PartialEq, Eq, Hash, serde::Serialize, serde::Deserialize)]
+pub struct AppD {
+    #[serde(default, skip_serializing_if = "Vec::is_empty")]
+    pub fangs: Vec<FangD>,
+    pub items: Vec<ItemD>,
+}
+
+fn leak(s: &str) -> &'static str { Box::leak(s.to_string().into_boxed_str()) }
+
+fn dynfang(f: &FangD) -> DynFang {
+    match f { FangD::Tag(t) => DynFang::Tag(leak(t)), FangD::Jwt => DynFang::Jwt(jwt()), FangD::Basic => DynFang::Basic(basic()) }
+}
+
+fn handler_set(path: &str, methods: &[MethD]) -> HandlerSet {
+    assert!(!methods.is_empty());
+    let mut set: Result<HandlerSet, &'static str> = Err(leak(path));
+    for m in methods {
+        let e = entry(&m.h).unwrap_or_else(|| panic!("c15: no catalogue handler `{}`", m.h));
+        let lf = match m.local.len() { 0 => None, 1 => Some(dynfang(&m.local[0])), n => panic!("c15: {n} local fangs are not generated") };
+        set = Ok((e.reg)(set, &m.method, lf));
+    }
+    match set { Ok(s) => s, Err(_) => unreachable!() }
+}
+
+pub fn ohkami_of(app: &AppD) -> Ohkami {
+    let mut items = Vec::new();
+    for it in &app.items {
+        items.push(match it {
+            ItemD::Route { path, methods } => DynItem::Handlers(handler_set(path, methods)),
+            ItemD::Mount { prefix, app } => DynItem::By(leak(prefix).By(ohkami_of(app))),
+            ItemD::Inline { app } => DynItem::Ohkami(ohkami_of(app)),
+        });
+    }
+    let r = DynRouting(items);
+    let f = |i: usize| dynfang(&app.fangs[i]);
+    match app.fangs.len() {
+        0 => Ohkami::new(r),
+        1 => Ohkami::new((f(0), r)),
+        2 => Ohkami::new((f(0), f(1), r)),
+        3 => Ohkami::new((f(0), f(1), f(2), r)),
+        n => panic!("c15: {n} fangs per application are not generated"),
+    }
+}
+
+/* ------------------------------------------------------------------------------------------------
+   the route table the property talks about, computed from the description
+------------------------------------------------------------------------------------------------ */
+
+#[derive(Clone, Debug)]
+pub struct Flat {
+    pub segs: Vec<String>,
+    pub method: String,
+    pub h: String,
+    pub local: Vec<FangD>,
+    /// indices into the application list (pre-order), outermost first
+    pub chain: Vec<usize>,
+}
+#[derive(Clone, Debug)]
+pub struct FlatApp { pub prefix: Vec<String>, pub fangs: Vec<FangD>, /** enclosing applications, outermost first, itself last */ pub chain: Vec<usize> }
+
+pub fn flatten(app: &AppD) -> (Vec<FlatApp>, Vec<Flat>) {
+    fn rec(app: &AppD, prefix: Vec<String>, chain: Vec<usize>, apps: &mut Vec<FlatApp>, routes: &mut Vec<Flat>) {
+        let me = apps.len();
+        let mut chain = chain; chain.push(me);
+        apps.push(FlatApp { prefix: prefix.clone(), fangs: app.fangs.clone(), chain: chain.clone() });
+        for it in &app.items {
+            match it {
+                ItemD::Route { path, methods } => for m in methods {
+                    let mut segs = prefix.clone(); segs.extend(appgen::split_route(path));
+                    routes.push(Flat { segs, method: m.method.clone(), h: m.h.clone(), local: m.local.clone(), chain: chain.clone() });
+                },
+                ItemD::Mount { prefix: p, app } => { let mut np = prefix.clone(); np.extend(appgen::split_route(p)); rec(app, np, chain.clone(), apps, routes) }
+                ItemD::Inline { app } => rec(app, prefix.clone(), chain.clone(), apps, routes),
+            }
+        }
+    }
+    let (mut apps, mut routes) = (Vec::new(), Vec::new());
+    rec(app, vec![], vec![], &mut apps, &mut routes);
+    (apps, routes)
+}
+
+fn is_param(s: &str) -> bool { s.starts_with(':') }
+fn norm(segs: &[String]) -> Vec<String> { segs.iter().map(|s| if is_param(s) { ":".to_string() } else { s.clone() }).collect() }
+fn template(segs: &[String]) -> String {
+    if segs.is_empty() { return "/".into() }
+    segs.iter().map(|s| match s.strip_prefix(':') { Some(p) => format!("/{{{p}}}"), None => format!("/{s}") }).collect()
+}
+fn template_params(tpl: &str) -> Vec<String> {
+    tpl.split('/').filter_map(|s| s.strip_prefix('{').and_then(|s| s.strip_suffix('}')).map(str::to_string)).collect()
+}
+fn route_str(segs: &[String]) -> String { c01::route_str(segs) }
+
+/// auth fangs that enclose the route by the description: enclosing applications outermost first, then local
+fn guards<'a>(apps: &'a [FlatApp], r: &'a Flat) -> Vec<(&'a FangD, String)> {
+    let mut out = vec![];
+    for (depth, &ai) in r.chain.iter().enumerate() {
+        for f in &apps[ai].fangs { if f.is_auth() { out.push((f, format!("{}@{}", f.kind(), if depth == 0 { "root" } else { "child" }))) } }
+    }
+    for f in &r.local { if f.is_auth() { out.push((f, format!("{}@local", f.kind()))) } }
+    out
+}
+
+/// Auth fangs of applications that do not enclose `r` but own the node `r`'s handler sits on.  An application's fangs
+/// are attached to every node of its own routing tree (its root, the nodes of its routes in their method tree, the
+/// nodes of the prefixes of mounts inside it in every method tree); when it is mounted, nodes that already exist at the
+/// same place (same static text, or a param whatever its name) are united with them and keep both fang lists.  Which
+/// fangs guard a handler on such a shared node is C04's subject (its precondition excludes these trees); here the
+/// description gives no expectation for `security` there and only document <-> run-time consistency is demanded.
+fn foreign_auth<'a>(apps: &'a [FlatApp], flat: &[Flat], r: &Flat) -> Vec<&'a FangD> {
+    let key = norm(&r.segs);
+    let mut out = vec![];
+    for (ai, a) in apps.iter().enumerate() {
+        if r.chain.contains(&ai) || !a.fangs.iter().any(FangD::is_auth) { continue }
+        let k0 = a.prefix.len();
+        let on_route = flat.iter().any(|r2| r2.chain.contains(&ai) && r2.method == r.method && (k0..=r2.segs.len()).any(|k| norm(&r2.segs[..k]) == key));
+        let on_mount = apps.iter().any(|b| b.chain.contains(&ai) && (k0..=b.prefix.len()).any(|k| norm(&b.prefix[..k]) == key));
+        if on_route || on_mount { out.extend(a.fangs.iter().filter(|f| f.is_auth())) }
+    }
+    out
+}
+
+fn route_feature(apps: &[FlatApp], r: &Flat) -> String {
+    let np = r.segs.iter().filter(|s| is_param(s)).count();
+    let inner = &apps[*r.chain.last().unwrap()];
+    let mount = if r.chain.len() <= 1 || inner.prefix.is_empty() { "" } else if inner.prefix.iter().any(|s| is_param(s)) { "+param-mount" } else { "+mount" };
+    format!("{np}p{mount}")
+}
+
+/* ------------------------------------------------------------------------------------------------
+   schema collection (validated afterwards by lib/c15_runner.py under Draft 2020-12)
+------------------------------------------------------------------------------------------------ */
+
+#[derive(Default)]
+pub struct Collector {
+    /// hash → (schema, signature id → (occurrences, first example))
+    map: BTreeMap<String, (Value, BTreeMap<String, (u64, Value)>)>,
+}
+thread_local! { static COLLECTOR: RefCell<Collector> = RefCell::new(Collector::default()); }
+
+fn fnv(s: &str) -> String {
+    let mut h: u64 = 0xcbf29ce484222325;
+    for b in s.bytes() { h ^= b as u64; h = h.wrapping_mul(0x100000001b3); }
+    format!("{h:016x}")
+}
+
+fn collect_schema(schema: &Value, sig: &str, pointer: &str, app: &AppD, shape: &str) {
+    let key = fnv(&schema.to_string());
+    COLLECTOR.with(|c| {
+        let mut c = c.borrow_mut();
+        let rec = c.map.entry(key).or_insert_with(|| (schema.clone(), BTreeMap::new()));
+        match rec.1.get_mut(sig) {
+            Some(w) => w.0 += 1,
+            None => { rec.1.insert(sig.to_string(), (1, json!({"app": app, "shape": shape, "pointer": pointer}))); }
+        }
+    });
+}
+
+fn work_dir() -> std::path::PathBuf {
+    match std::env::var_os("VERIF_SHARD_WORK") {
+        Some(d) => d.into(),
+        None => {
+            let exe = std::env::current_exe().expect("current_exe");
+            exe.parent().expect("exe dir").join(format!("c15-work-{}", std::process::id()))
+        }
+    }
+}
+
+fn dump_schemas(ctx: &mut Ctx) {
+    let dir = work_dir();
+    let out: Map<String, Value> = COLLECTOR.with(|c| c.borrow().map.iter().map(|(k, (schema, wh))| (k.clone(), json!({
+        "schema": schema,
+        "where": wh.iter().map(|(sig, (n, ex))| (sig.clone(), json!({"count": n, "example": ex}))).collect::<Map<String, Value>>(),
+    }))).collect());
+    ctx.extra.insert("sum_schema_objects_dumped".into(), json!(out.len()));
+    if let Err(e) = std::fs::create_dir_all(&dir).and_then(|_| std::fs::write(dir.join("c15_schemas.json"), Value::Object(out).to_string())) {
+        ctx.machinery_error(format!("C15: cannot write the schema dump into {}: {e}", dir.display()));
+    }
+}
+
+/* ------------------------------------------------------------------------------------------------
+   reading the document
+------------------------------------------------------------------------------------------------ */
+
+fn resolve<'d>(doc: &'d Value, r: &str) -> Option<&'d Value> { r.strip_prefix('#').and_then(|p| doc.pointer(p)) }
+
+fn deref<'d>(doc: &'d Value, mut v: &'d Value) -> Option<&'d Value> {
+    for _ in 0..8 {
+        match v.get("$ref").and_then(Value::as_str) { Some(r) => v = resolve(doc, r)?, None => return Some(v) }
+    }
+    None
+}
+
+fn esc_ptr(s: &str) -> String { s.replace('~', "~0").replace('/', "~1") }
+
+/// every `$ref` string below `v`
+fn refs_below(v: &Value, out: &mut Vec<String>) {
+    match v {
+        Value::Object(m) => for (k, x) in m { if k == "$ref" { if let Some(s) = x.as_str() { out.push(s.to_string()) } else { out.push(format!("<non-string:{x}>")) } } else { refs_below(x, out) } },
+        Value::Array(a) => for x in a { refs_below(x, out) },
+        _ => {}
+    }
+}
+
+/// (pointer, schema) of every schema object directly embedded in an operation
+fn schemas_of_operation(op_ptr: &str, op: &Value) -> Vec<(String, Value)> {
+    let mut out = vec![];
+    if let Some(ps) = op.get("parameters").and_then(Value::as_array) {
+        for (i, p) in ps.iter().enumerate() { if let Some(s) = p.get("schema") { out.push((format!("{op_ptr}/parameters/{i}/schema"), s.clone())) } }
+    }
+    if let Some(c) = op.pointer("/requestBody/content").and_then(Value::as_object) {
+        for (mt, x) in c { if let Some(s) = x.get("schema") { out.push((format!("{op_ptr}/requestBody/content/{}/schema", esc_ptr(mt)), s.clone())) } }
+    }
+    if let Some(rs) = op.get("responses").and_then(Value::as_object) {
+        for (st, r) in rs {
+            if let Some(c) = r.get("content").and_then(Value::as_object) {
+                for (mt, x) in c { if let Some(s) = x.get("schema") { out.push((format!("{op_ptr}/responses/{st}/content/{}/schema", esc_ptr(mt)), s.clone())) } }
+            }
+            if let Some(hs) = r.get("headers").and_then(Value::as_object) {
+                for (hn, x) in hs { if let Some(s) = x.get("schema") { out.push((format!("{op_ptr}/responses/{st}/headers/{}/schema", esc_ptr(hn)), s.clone())) } }
+            }
+        }
+    }
+    out
+}
+
+fn media(s: &str) -> String { s.split(';').next().unwrap_or("").trim().to_ascii_lowercase() }
+
+/* ------------------------------------------------------------------------------------------------
+   building a request from a documented operation
+------------------------------------------------------------------------------------------------ */
+
+fn scalar_text(ty: &str, pos: usize) -> Option<String> {
+    match ty { "integer" => Some(format!("{}", 11 * (pos + 1))), "string" => Some(format!("v{pos}")), "number" => Some("1.5".into()), "boolean" => Some("true".into()), _ => None }
+}
+
+/// a minimal instance of a documented schema (required members only); Err = the schema does not say enough
+fn instance(doc: &Value, schema: &Value, depth: usize) -> Result<Value, String> {
+    if depth > 6 { return Err("schema nesting too deep".into()) }
+    let s = deref(doc, schema).ok_or("dangling $ref")?;
+    for k in ["oneOf", "anyOf"] { if let Some(a) = s.get(k).and_then(Value::as_array) { if let Some(f) = a.first() { return instance(doc, f, depth + 1) } } }
+    let ty = s.get("type").and_then(Value::as_str).unwrap_or(if s.get("properties").is_some() { "object" } else { "" });
+    match ty {
+        "object" => {
+            let mut m = Map::new();
+            let props = s.get("properties").and_then(Value::as_object);
+            for r in s.get("required").and_then(Value::as_array).map(|a| a.as_slice()).unwrap_or(&[]) {
+                let name = r.as_str().ok_or("non-string in `required`")?;
+                let ps = props.and_then(|p| p.get(name)).ok_or_else(|| format!("required member `{name}` has no schema"))?;
+                m.insert(name.to_string(), instance(doc, ps, depth + 1)?);
+            }
+            Ok(Value::Object(m))
+        }
+        "array" => Ok(json!([])),
+        "string" => Ok(json!("s")),
+        "integer" => Ok(json!(1)),
+        "number" => Ok(json!(1.5)),
+        "boolean" => Ok(json!(true)),
+        "null" => Ok(Value::Null),
+        other => Err(format!("type `{other}` is not a JSON Schema type")),
+    }
+}
+
+fn form_text(v: &Value) -> Option<String> { match v { Value::String(s) => Some(s.clone()), Value::Number(n) => Some(n.to_string()), Value::Bool(b) => Some(b.to_string()), _ => None } }
+
+pub struct Built { pub raw: Vec<u8>, pub text: String }
+
+/// `auth`: false = leave the documented security requirement unanswered (the probe for `security-extra`)
+fn build_from_document(doc: &Value, tpl: &str, method: &str, op: &Value, auth: bool, token: &str) -> Result<Built, String> {
+    let params: Vec<&Value> = op.get("parameters").and_then(Value::as_array).map(|a| a.iter().collect()).unwrap_or_default();
+    let type_of = |p: &Value| -> String { p.get("schema").and_then(|s| deref(doc, s)).and_then(|s| s.get("type")).and_then(Value::as_str).unwrap_or("").to_string() };
+    // path
+    let mut path = String::new();
+    let mut pos = 0usize;
+    for seg in tpl.split('/').skip(1) {
+        path.push('/');
+        match seg.strip_prefix('{').and_then(|s| s.strip_suffix('}')) {
+            Some(name) => {
+                let ty = params.iter().find(|p| p["in"] == "path" && p["name"] == name).map(|p| type_of(p));
+                // an undeclared `{p}` is reported by the document rules; the request then carries a plain text value
+                let text = match ty { Some(t) => scalar_text(&t, pos).ok_or_else(|| format!("path parameter `{name}` has type `{t}`"))?, None => format!("v{pos}") };
+                path.push_str(&text);
+                pos += 1;
+            }
+            None => path.push_str(seg),
+        }
+    }
+    if path.is_empty() { path.push('/') }
+    // query
+    let mut q: Vec<String> = vec![];
+    for (i, p) in params.iter().enumerate() {
+        if p["in"] == "query" && p["required"] == true {
+            let name = p["name"].as_str().ok_or("query parameter without name")?;
+            let t = type_of(p);
+            q.push(format!("{name}={}", scalar_text(&t, i).ok_or_else(|| format!("query parameter `{name}` has type `{t}`"))?));
+        }
+    }
+    let target = if q.is_empty() { path } else { format!("{path}?{}", q.join("&")) };
+    // headers
+    let mut headers: Vec<(String, String)> = vec![("Host".into(), "h".into())];
+    if auth {
+        if let Some(req) = op.get("security").and_then(Value::as_array).and_then(|a| a.first()).and_then(Value::as_object) {
+            for name in req.keys() {
+                let scheme = doc.pointer(&format!("/components/securitySchemes/{}", esc_ptr(name))).ok_or_else(|| format!("security scheme `{name}` is not defined"))?;
+                let v = match (scheme["type"].as_str(), scheme["scheme"].as_str()) {
+                    (Some("http"), Some("bearer")) => format!("Bearer {token}"),
+                    (Some("http"), Some("basic")) => { use base64::Engine; format!("Basic {}", base64::engine::general_purpose::STANDARD.encode(format!("{BASIC_USER}:{BASIC_PASS}"))) }
+                    other => return Err(format!("security scheme {other:?} is not one the generator configures")),
+                };
+                headers.push(("Authorization".into(), v));
+            }
+        }
+    }
+    // body
+    let mut body: Vec<u8> = vec![];
+    if let Some(content) = op.pointer("/requestBody/content").and_then(Value::as_object) {
+        let (mt, c) = content.iter().next().ok_or("requestBody without content")?;
+        let schema = c.get("schema").ok_or("request body without schema")?;
+        let inst = instance(doc, schema, 0)?;
+        match media(mt).as_str() {
+            "application/json" => { body = inst.to_string().into_bytes(); headers.push(("Content-Type".into(), "application/json".into())) }
+            "application/x-www-form-urlencoded" => {
+                let o = inst.as_object().ok_or("form body that is not an object")?;
+                let parts: Option<Vec<String>> = o.iter().map(|(k, v)| form_text(v).map(|t| format!("{k}={t}"))).collect();
+                body = parts.ok_or("form member that is not a scalar")?.join("&").into_bytes();
+                headers.push(("Content-Type".into(), "application/x-www-form-urlencoded".into()));
+            }
+            "multipart/form-data" => {
+                let o = inst.as_object().ok_or("multipart body that is not an object")?;
+                let mut b = String::new();
+                for (k, v) in o { b.push_str(&format!("--c15b\r\nContent-Disposition: form-data; name=\"{k}\"\r\n\r\n{}\r\n", form_text(v).ok_or("multipart member that is not a scalar")?)) }
+                b.push_str("--c15b--\r\n");
+                body = b.into_bytes();
+                headers.push(("Content-Type".into(), "multipart/form-data; boundary=c15b".into()));
+            }
+            other => return Err(format!("media type `{other}` is not one the generator knows")),
+        }
+    }
+    let hs: Vec<(&str, &str)> = headers.iter().map(|(k, v)| (k.as_str(), v.as_str())).collect();
+    let raw = app::request(method, &target, &hs, &body);
+    Ok(Built { text: crate::core::esc(&raw), raw })
+}
+
+/// a request for (route, method) built from the *description* (used when the document has no such operation)
+fn build_from_description(apps: &[FlatApp], r: &Flat, e: &Entry, token: &str) -> Vec<u8> {
+    let mut path = String::new();
+    let mut pos = 0usize;
+    for s in &r.segs {
+        path.push('/');
+        if is_param(s) { path.push_str(&scalar_text(e.exp.params.get(pos).copied().unwrap_or("string"), pos).unwrap()); pos += 1 } else { path.push_str(s) }
+    }
+    if path.is_empty() { path.push('/') }
+    if !e.exp.sample_query.is_empty() { path = format!("{path}?{}", e.exp.sample_query) }
+    let mut headers: Vec<(String, String)> = vec![("Host".into(), "h".into())];
+    if let Some((f, _)) = guards(apps, r).first() {
+        headers.push(("Authorization".into(), match f {
+            FangD::Jwt => format!("Bearer {token}"),
+            _ => { use base64::Engine; format!("Basic {}", base64::engine::general_purpose::STANDARD.encode(format!("{BASIC_USER}:{BASIC_PASS}"))) }
+        }));
+    }
+    if let Some(mt) = e.exp.body {
+        headers.push(("Content-Type".into(), if mt == "multipart/form-data" { "multipart/form-data; boundary=c15b".into() } else { mt.to_string() }));
+    }
+    let hs: Vec<(&str, &str)> = headers.iter().map(|(k, v)| (k.as_str(), v.as_str())).collect();
+    app::request(&r.method, &path, &hs, e.exp.sample_body.as_bytes())
+}
+
+fn send(router: &VerifRouter, raw: &[u8]) -> (Outcome, Vec<(&'static str, Vec<String>)>) {
+    hits_take();
+    let o = app::oneshot(router, raw);
+    (o, hits_take())
+}
+
+/* ------------------------------------------------------------------------------------------------
+   one application
+------------------------------------------------------------------------------------------------ */
+
+fn token() -> String {
+    thread_local! { static TOKEN: String = jwt().issue(Claims { sub: "c15".into(), exp: app::CLOCK + 100_000 }).to_string(); }
+    TOKEN.with(|t| t.clone())
+}
+
+fn op_excerpt(op: &Value) -> Value {
+    let mut o = op.clone();
+    if let Some(m) = o.as_object_mut() { for k in ["description", "summary", "externalDocs"] { m.remove(k); } }
+    o
+}
+
+pub fn check_app(ctx: &mut Ctx, app: &AppD, shape: &str) {
+    let (apps, flat) = flatten(app);
+    let key = serde_json::to_string(app).unwrap();
+    ctx.distinct_key(&key);
+    let wit = |extra: Value| { let mut w = json!({"app": app, "shape": shape}); if let (Some(w), Some(e)) = (w.as_object_mut(), extra.as_object()) { for (k, v) in e { w.insert(k.clone(), v.clone()); } } w };
+
+    // ---- preconditions of the statement (restrict the generator, never checked on the subject) ----
+    // (1) two registrations for the same method that differ only in param names denote the same URL space twice; the
+    //     framework refuses them when they meet in one registration call, but not always across a mount
+    for (i, r) in flat.iter().enumerate() {
+        if flat[..i].iter().any(|x| x.method == r.method && norm(&x.segs) == norm(&r.segs)) {
+            ctx.skip(); *ctx.outcomes.entry("skipped:same-route-twice-modulo-param-names".into()).or_insert(0) += 1; return
+        }
+    }
+    // (2) a handler behind both a JWT and a BasicAuth fang cannot be reached by any request (one Authorization header)
+    for r in &flat {
+        let mut kinds: BTreeSet<&str> = guards(&apps, r).iter().map(|(f, _)| f.kind()).collect();
+        kinds.extend(foreign_auth(&apps, &flat, r).iter().map(|f| f.kind()));
+        if kinds.len() > 1 { ctx.skip(); *ctx.outcomes.entry("skipped:needs-bearer-and-basic-at-once".into()).or_insert(0) += 1; return }
+    }
+
+    // ---- build (registration may reject the description: outside the quantifier) ----
+    let built = guarded(|| ohkami_of(app));
+    let o = match built {
+        Ok(o) => o,
+        Err(p) => { ctx.skip(); *ctx.outcomes.entry(format!("skipped:rejected-at-registration:{}", panic_kind(&p))).or_insert(0) += 1; return }
+    };
+    ctx.states += 1;
+
+    // ---- the document, by the real generator ----
+    let bytes = match guarded(|| o.__openapi_document_bytes__(openapi::OpenAPI { title: "c15", version: "0.0.1", servers: &[] })) {
+        Ok(b) => b,
+        Err(p) => {
+            // finalize rejects handlers that take more params than the route has: such applications are outside the quantifier
+            if p.contains("requires") && p.contains("path param") { ctx.skip(); *ctx.outcomes.entry("skipped:rejected-at-finalize".into()).or_insert(0) += 1; ctx.states -= 1; return }
+            ctx.violation(&format!("C15/generator-panic/{}", panic_kind(&p)), true, || wit(json!({"panic": p}))); return
+        }
+    };
+    ctx.traces_validated += 1;
+    let doc: Value = match serde_json::from_slice(&bytes) {
+        Ok(v) => v,
+        Err(e) => { ctx.violation("C15/malformed-json/document", true, || wit(json!({"error": e.to_string(), "bytes": crate::core::esc(&bytes[..bytes.len().min(400)])}))); return }
+    };
+    ctx.transitions += 1;
+    let mut app_ok = true;
+    for (ptr, what) in [("/openapi", "openapi"), ("/info/title", "info.title"), ("/info/version", "info.version")] {
+        ctx.transitions += 1;
+        if doc.pointer(ptr).and_then(Value::as_str).map_or(true, |s| s.is_empty() || (what == "openapi" && !s.starts_with("3."))) {
+            app_ok = false;
+            ctx.violation(&format!("C15/document-field/{what}"), true, || wit(json!({"observed": doc.pointer(ptr)})));
+        }
+    }
+    let Some(paths) = doc.get("paths").and_then(Value::as_object) else {
+        ctx.violation("C15/document-field/paths", true, || wit(json!({"observed": doc.get("paths")}))); return
+    };
+
+    // ---- the router of the same Ohkami (what `howl` serves with) ----
+    let router = match guarded(|| VerifRouter::from(o)) {
+        Ok(r) => r,
+        Err(p) => { ctx.violation(&format!("C15/finalize-panic/{}", panic_kind(&p)), true, || wit(json!({"panic": p}))); return }
+    };
+    let token = token();
+
+    // ---- expected table ----
+    let mut expected: BTreeMap<String, BTreeMap<String, usize>> = BTreeMap::new();
+    for (i, r) in flat.iter().enumerate() { expected.entry(template(&r.segs)).or_default().insert(r.method.to_ascii_lowercase(), i); }
+    let shared_param_node = {
+        let mut seen: HashMap<Vec<String>, BTreeSet<Vec<String>>> = HashMap::new();
+        for r in &flat { for k in 1..=r.segs.len() { seen.entry(norm(&r.segs[..k])).or_default().insert(r.segs[..k].to_vec()); } }
+        seen.values().any(|v| v.len() > 1)
+    };
+
+    // ---- path / method sets ----
+    for (tpl, item) in paths {
+        ctx.transitions += 1;
+        let ops: Vec<(&String, &Value)> = item.as_object().map(|m| m.iter().filter(|(k, _)| ["get", "put", "post", "patch", "delete", "options", "head", "trace"].contains(&k.as_str())).collect()).unwrap_or_default();
+        match expected.get(tpl) {
+            None => {
+                app_ok = false;
+                ctx.violation(&format!("C15/path-extra/unknown-route:{}p", template_params(tpl).len()), true, || wit(json!({"path": tpl, "documented_methods": ops.iter().map(|(m, _)| m.as_str()).collect::<Vec<_>>(), "route_table": expected.keys().collect::<Vec<_>>()})));
+                // a request built from it must still reach a handler
+                for (m, op) in &ops {
+                    if let Ok(b) = build_from_document(&doc, tpl, &m.to_ascii_uppercase(), op, true, &token) {
+                        ctx.transitions += 1;
+                        let (out, hits) = send(&router, &b.raw);
+                        if hits.is_empty() { ctx.violation("C15/unreachable/unknown-route", true, || wit(json!({"path": tpl, "method": m, "request": b.text, "observed": out.kind()}))) }
+                    }
+                }
+            }
+            Some(ms) => for (m, _) in &ops {
+                ctx.transitions += 1;
+                if !ms.contains_key(m.as_str()) {
+                    app_ok = false;
+                    let feat = route_feature(&apps, &flat[*ms.values().next().unwrap()]);
+                    ctx.violation(&format!("C15/method-extra/{feat}"), true, || wit(json!({"path": tpl, "method": m, "registered": ms.keys().collect::<Vec<_>>()})));
+                }
+            },
+        }
+    }
+
+    // ---- every registered (route, method) ----
+    let mut all_reached: BTreeSet<String> = BTreeSet::new();
+    for (tpl, ms) in &expected {
+        for (m, &fi) in ms {
+            let r = &flat[fi];
+            let Some(e) = entry(&r.h) else { ctx.machinery_error(format!("C15: description names unknown handler {}", r.h)); return };
+            let feat = route_feature(&apps, r);
+            let tparams = template_params(tpl);
+            let fewer = e.n_params() < tparams.len();
+            let pf = if fewer { format!("fewer-params:{}of{}", e.n_params(), tparams.len()) } else { e.id.to_string() };
+            let hid = e.id;
+            let gs = guards(&apps, r);
+            let placement = gs.iter().map(|(_, p)| p.as_str()).collect::<Vec<_>>().join("+");
+            let collision = fewer || shared_param_node || feat.ends_with("+param-mount");
+            let mut problems: Vec<(String, Value)> = vec![];
+            ctx.transitions += 1;
+
+            let op = paths.get(tpl).and_then(|it| it.get(m));
+            let Some(op) = op else {
+                app_ok = false;
+                let rule = if paths.contains_key(tpl) { "method-missing" } else { "path-missing" };
+                ctx.violation(&format!("C15/{rule}/{feat}"), true, || wit(json!({"path": tpl, "method": m, "h": e.id, "route": route_str(&r.segs), "documented_paths": paths.keys().collect::<Vec<_>>()})));
+                // is the handler reachable?  then it is an undocumented reachable handler
+                let raw = build_from_description(&apps, r, e, &token);
+                ctx.transitions += 1;
+                let (out, hits) = send(&router, &raw);
+                if hits.iter().any(|(id, _)| *id == e.id) {
+                    ctx.violation(&format!("C15/undocumented/{feat}"), true, || wit(json!({"path": tpl, "method": m, "h": e.id, "request": crate::core::esc(&raw), "observed": out.kind()})));
+                }
+                continue
+            };
+            let op_ptr = format!("/paths/{}/{}", esc_ptr(tpl), m);
+
+            // (a) path parameters
+            let params: Vec<&Value> = op.get("parameters").and_then(Value::as_array).map(|a| a.iter().collect()).unwrap_or_default();
+            let declared: Vec<(String, bool)> = params.iter().filter(|p| p["in"] == "path").map(|p| (p["name"].as_str().unwrap_or("<no name>").to_string(), p["required"] == true)).collect();
+            ctx.transitions += 4;
+            for t in &tparams { if !declared.iter().any(|(n, _)| n == t) { problems.push((format!("param-undeclared/{pf}"), json!({"undeclared": t}))) } }
+            for (n, _) in &declared { if !tparams.contains(n) { problems.push((format!("param-extra/{pf}"), json!({"extra": n}))) } }
+            for (n, req) in &declared { if tparams.contains(n) && !req { problems.push((format!("param-not-required/{pf}"), json!({"param": n}))) } }
+            {
+                let d: Vec<&String> = declared.iter().map(|(n, _)| n).filter(|n| tparams.contains(n)).collect();
+                let t: Vec<&String> = tparams.iter().filter(|t| d.contains(t)).collect();
+                let mut dd = d.clone(); dd.dedup();
+                if dd != t { problems.push((format!("param-order/{pf}"), json!({"declared": d, "template": tparams}))) }
+            }
+            for p in &params { if !(p["in"] == "path" || p["in"] == "query") { problems.push((format!("param-extra/{hid}"), json!({"extra": p}))) } }
+
+            // (b) query parameters
+            ctx.transitions += 1;
+            let got_q: BTreeSet<(String, bool)> = params.iter().filter(|p| p["in"] == "query").map(|p| (p["name"].as_str().unwrap_or("<no name>").to_string(), p["required"] == true)).collect();
+            let want_q: BTreeSet<(String, bool)> = e.exp.query.iter().map(|(n, r)| (n.to_string(), *r)).collect();
+            if got_q != want_q { problems.push((format!("query/{hid}"), json!({"documented": got_q, "expected": want_q}))) }
+
+            // (c) request body
+            ctx.transitions += 1;
+            let got_b: BTreeSet<String> = op.pointer("/requestBody/content").and_then(Value::as_object).map(|c| c.keys().map(|k| media(k)).collect()).unwrap_or_default();
+            let want_b: BTreeSet<String> = e.exp.body.iter().map(|s| s.to_string()).collect();
+            if got_b != want_b || (op.get("requestBody").is_some() != e.exp.body.is_some()) { problems.push((format!("body/{hid}"), json!({"documented": got_b, "expected": want_b}))) }
+
+            // (d) responses
+            ctx.transitions += 1;
+            let got_r: BTreeSet<(String, Option<String>)> = op.get("responses").and_then(Value::as_object).map(|rs| rs.iter().flat_map(|(st, r)| {
+                let mts: Vec<Option<String>> = r.get("content").and_then(Value::as_object).map(|c| c.keys().map(|k| Some(media(k))).collect()).unwrap_or_default();
+                if mts.is_empty() { vec![(st.clone(), None)] } else { mts.into_iter().map(|mt| (st.clone(), mt)).collect() }
+            }).collect()).unwrap_or_default();
+            let want_r: BTreeSet<(String, Option<String>)> = e.exp.responses.iter().map(|(s, mt)| (s.to_string(), mt.map(str::to_string))).collect();
+            if got_r != want_r { problems.push((format!("responses/{hid}"), json!({"documented": got_r, "expected": want_r}))) }
+
+            // (e) security, against the description
+            let sec: Vec<&Map<String, Value>> = op.get("security").and_then(Value::as_array).map(|a| a.iter().filter_map(Value::as_object).collect()).unwrap_or_default();
+            let documented_sec = sec.iter().any(|m| !m.is_empty());
+            let open = !foreign_auth(&apps, &flat, r).is_empty();
+            ctx.transitions += 1;
+            if !open {
+                let sf = if gs.is_empty() { "unguarded" } else { placement.as_str() };
+                if !gs.is_empty() && !documented_sec { problems.push((format!("security-missing/{sf}"), json!({"guards": placement}))) }
+                if gs.is_empty() && documented_sec { problems.push((format!("security-extra/{sf}"), json!({"documented": op.get("security")}))) }
+            }
+            // (f) referenced schemes are defined
+            for m in &sec { for name in m.keys() {
+                ctx.transitions += 1;
+                if doc.pointer(&format!("/components/securitySchemes/{}", esc_ptr(name))).map_or(true, |s| !s.is_object()) { problems.push((format!("scheme-undefined/{name}"), json!({"scheme": name}))) }
+            } }
+            // (g) references
+            let mut refs = vec![]; refs_below(op, &mut refs);
+            for rf in &refs {
+                ctx.transitions += 1;
+                if resolve(&doc, rf).is_none() { problems.push((format!("ref-dangling/{hid}"), json!({"ref": rf}))) }
+            }
+            // (h) schemas (validated by the python half), with the components they reach
+            let mut reached: Vec<String> = vec![];
+            for (ptr, s) in schemas_of_operation(&op_ptr, op) {
+                collect_schema(&s, e.id, &ptr, app, shape);
+                let mut stack = vec![s];
+                while let Some(x) = stack.pop() {
+                    let mut rs = vec![]; refs_below(&x, &mut rs);
+                    for rf in rs { if !reached.contains(&rf) { reached.push(rf.clone()); all_reached.insert(rf.clone()); if let Some(t) = resolve(&doc, &rf) { collect_schema(t, e.id, rf.trim_start_matches('#'), app, shape); stack.push(t.clone()); } } }
+                }
+            }
+
+            // (i) a request built from the document reaches this handler
+            let mut unbuildable: Option<String> = None;
+            match build_from_document(&doc, tpl, &r.method, op, true, &token) {
+                Err(why) => unbuildable = Some(why),
+                Ok(b) => {
+                    ctx.transitions += 1;
+                    let (out, hits) = send(&router, &b.raw);
+                    let reached_h = hits.iter().any(|(id, _)| *id == e.id);
+                    match &out {
+                        Outcome::Response { .. } => {}
+                        other => problems.push((format!("request-broken/{}", other.kind()), json!({"request": b.text}))),
+                    }
+                    let status = out.status().unwrap_or(0);
+                    if reached_h {
+                        // self-check of the hand-written expectation record: the status the handler really answers is one it lists
+                        let in_record = e.exp.responses.iter().any(|(s, _)| *s == status.to_string());
+                        let in_doc = op.get("responses").and_then(Value::as_object).map_or(false, |rs| rs.contains_key(&status.to_string()) || rs.contains_key("default"));
+                        ctx.transitions += 1;
+                        if !in_doc && !in_record {
+                            // document and record agree with each other, the application answers something else
+                            problems.push((format!("responses/{hid}:answers-undocumented-status"), json!({"request": b.text, "answered": status, "documented": got_r})));
+                        } else if in_doc && !in_record {
+                            ctx.machinery_error(format!("C15: catalogue record of {} lists {:?} but the handler answered {status}, which the document lists", e.id, e.exp.responses.iter().map(|x| x.0).collect::<Vec<_>>()));
+                        }
+                        if documented_sec {
+                            // the documented requirement must be a real one: the same request without credentials does not get through
+                            if let Ok(nb) = build_from_document(&doc, tpl, &r.method, op, false, &token) {
+                                ctx.transitions += 1;
+                                let (out2, hits2) = send(&router, &nb.raw);
+                                if hits2.iter().any(|(id, _)| *id == e.id) {
+                                    problems.push((format!("security-extra/not-enforced:{}", if placement.is_empty() { "unguarded" } else { &placement }), json!({"request": nb.text, "observed": out2.kind()})));
+                                }
+                            }
+                        }
+                    } else if !documented_sec && status == 401 {
+                        problems.push((format!("security-missing/enforced:{}", if placement.is_empty() { "unguarded" } else { &placement }), json!({"request": b.text, "observed": out.kind()})));
+                    } else {
+                        let other: Vec<&str> = hits.iter().map(|(id, _)| *id).collect();
+                        problems.push((format!("unreachable/{hid}:{}", if other.is_empty() { status.to_string() } else { "other-handler".into() }), json!({"request": b.text, "observed": out.kind(), "handlers_run": other})));
+                    }
+                }
+            }
+
+            if problems.is_empty() {
+                match unbuildable {
+                    Some(why) => { ctx.skip(); *ctx.outcomes.entry(format!("skipped:request-not-buildable:{}", why.split('`').nth(1).map(|t| format!("type-{t}")).unwrap_or_else(|| "other".into()))).or_insert(0) += 1; }
+                    None if open => ctx.ambiguous(&format!("security-of-node-shared-with-a-foreign-mount:{}", if documented_sec { "documented" } else { "absent" })),
+                    None => ctx.pass(&format!("op:{feat}:{}:{}:{}", if fewer { "fewer" } else { "all-params" }, e.exp.body.map(media).unwrap_or_else(|| "-".into()), if documented_sec { placement.as_str() } else { "open" }), true, collision),
+                }
+            } else {
+                app_ok = false;
+                for (cls, detail) in problems {
+                    ctx.violation(&format!("C15/{cls}"), true, || wit(json!({"path": tpl, "method": m, "h": e.id, "route": route_str(&r.segs), "detail": detail, "operation": op_excerpt(op)})));
+                }
+            }
+        }
+    }
+
+    // ---- components: orphan schemas are validated too; dangling refs inside components ----
+    if let Some(cs) = doc.pointer("/components/schemas").and_then(Value::as_object) {
+        for (name, s) in cs {
+            let ptr = format!("/components/schemas/{}", esc_ptr(name));
+            if !all_reached.contains(&format!("#{ptr}")) { collect_schema(s, &format!("component:{name}"), &ptr, app, shape) }
+            let mut refs = vec![]; refs_below(s, &mut refs);
+            for rf in refs { ctx.transitions += 1; if resolve(&doc, &rf).is_none() { app_ok = false; ctx.violation(&format!("C15/ref-dangling/component:{name}"), true, || wit(json!({"ref": rf}))) } }
+        }
+    }
+    if app_ok { ctx.pass(&format!("app:{}:{}routes", shape.trim_end_matches(|c: char| c.is_ascii_digit()), flat.len().min(4)), flat.len() > 1 || !apps.iter().all(|a| a.fangs.is_empty()), false) }
+    ctx.sample(|| json!({"app": app, "shape": shape, "document_paths": paths.keys().collect::<Vec<_>>()}));
+}
+
+/* ------------------------------------------------------------------------------------------------
+   enumeration
+------------------------------------------------------------------------------------------------ */
+
+pub fn all_routes(max_depth: usize) -> Vec<Vec<String>> {
+    let mut out = vec![vec![]];
+    let mut frontier: Vec<Vec<String>> = vec![vec![]];
+    for _ in 0..max_depth {
+        let mut next = vec![];
+        for r in &frontier { for s in SEGS {
+            // a param name is used once per route (it becomes `{name}` in the template)
+            if is_param(s) && r.iter().any(|x| x == s) { continue }
+            let mut n = r.clone(); n.push(s.to_string()); next.push(n);
+        } }
+        out.extend(next.iter().cloned());
+        frontier = next;
+    }
+    out
+}
+
+fn n_params(segs: &[String]) -> usize { segs.iter().filter(|s| is_param(s)).count() }
+
+/// deterministic rotation through the catalogue entries that fit (route, method)
+struct Rot { k: usize }
+impl Rot {
+    fn pick(&mut self, segs: &[String], method: &str) -> &'static Entry {
+        let np = n_params(segs);
+        let fit: Vec<&'static Entry> = entries().iter().filter(|e| e.n_params() <= np && (e.exp.body.is_none() || matches!(method, "POST" | "PUT" | "PATCH"))).collect();
+        // prefer entries that take all params two times out of three, so that both families are frequent
+        let full: Vec<&'static Entry> = fit.iter().copied().filter(|e| e.n_params() == np).collect();
+        self.k += 1;
+        if self.k % 3 != 0 && !full.is_empty() { full[(self.k / 3 * 2 + self.k % 3) % full.len()] } else { fit[self.k % fit.len()] }
+    }
+}
+
+fn convert(a: &appgen::AppDesc, assign: &HashMap<String, String>) -> AppD {
+    AppD { fangs: vec![], items: a.items.iter().map(|it| match it {
+        appgen::ItemDesc::Route { path, methods } => ItemD::Route { path: path.clone(), methods: methods.iter().map(|m| MethD { method: m.method.clone(), h: assign[&m.hid].clone(), local: vec![] }).collect() },
+        appgen::ItemDesc::Mount { prefix, app } => ItemD::Mount { prefix: prefix.clone(), app: convert(app, assign) },
+        appgen::ItemDesc::Inline { app } => ItemD::Inline { app: convert(app, assign) },
+    }).collect() }
+}
+
+/// every declaration shape (and registration order) of a route set, with handlers assigned once per (route, method)
+fn shaped(set: &[c01::RouteSpec], rot: &mut Rot, all_orders: bool) -> Vec<(String, AppD)> {
+    let mut assign: HashMap<String, String> = HashMap::new();
+    for r in set { for m in &r.methods { assign.insert(format!("{m} {}", route_str(&r.segs)), rot.pick(&r.segs, m).id.to_string()); } }
+    let mut out = vec![];
+    for (name, desc) in c01::shapes(set) {
+        let orders = c01::orders(&desc, all_orders);
+        let n = orders.len();
+        for (oi, d) in orders.into_iter().enumerate() {
+            if !all_orders && oi > 0 && oi + 1 != n { continue }
+            out.push((format!("{name}#{oi}"), convert(&d, &assign)));
+        }
+    }
+    out
+}
+
+/// resident set size in MiB (the framework leaks every finalized router by design: ~40 KiB per application)
+fn rss_mib() -> u64 {
+    std::fs::read_to_string("/proc/self/statm").ok().and_then(|s| s.split_whitespace().nth(1).and_then(|p| p.parse::<u64>().ok())).map(|pages| pages * 4096 / (1 << 20)).unwrap_or(0)
+}
+
+/// Sharding unit = a group of applications generated together (a route with all its handlers, a route set with all its
+/// shapes and orders, ...).  `enter` returns None when the enumeration must stop (wall or memory cap: the run is capped),
+/// Some(false) when the unit belongs to another worker.  The handler rotation is seeded by the unit number, so that a
+/// worker does not have to generate the units it skips.
+struct Units { n: usize, rss_cap: u64 }
+impl Units {
+    fn enter(&mut self, ctx: &mut Ctx) -> Option<(bool, Rot)> {
+        self.n += 1;
+        let rot = Rot { k: self.n.wrapping_mul(7) };
+        if !ctx.mine() { return Some((false, rot)) }
+        if ctx.out_of_time() { return None }
+        if rss_mib() > self.rss_cap { ctx.capped = true; ctx.extra.insert("capped_by".into(), json!(format!("resident set above {} MiB", self.rss_cap))); return None }
+        Some((true, rot))
+    }
+}
+
+fn with_fangs(base: &AppD, rf: &[FangD], child: Option<(usize, &[FangD])>, local: Option<(usize, &[FangD])>) -> AppD {
+    let mut a = base.clone();
+    a.fangs = rf.to_vec();
+    if let Some((ci, cf)) = child {
+        let mut seen = 0usize;
+        for it in a.items.iter_mut() { if let ItemD::Mount { app, .. } = it { if seen == ci { app.fangs = cf.to_vec() } seen += 1 } }
+    }
+    if let Some((li, lf)) = local { let mut seen = 0usize; set_local(&mut a, li, lf, &mut seen) }
+    a
+}
+
+pub fn run(ctx: &mut Ctx) {
+    app::pin_clock();
+    let quick = ctx.quick();
+    let mut units = Units { n: 0, rss_cap: std::env::var("VERIF_RSS_CAP_MB").ok().and_then(|s| s.parse().ok()).unwrap_or(2500) };
+    let spec = |segs: &Vec<String>, ms: &[&str]| c01::RouteSpec { segs: segs.clone(), methods: ms.iter().map(|s| s.to_string()).collect() };
+    let depth_a = 3;
+    'all: {
+        // ---- A: every catalogue signature on every single route it fits (flat and under a one-segment mount) ----
+        let mut k = 0usize;
+        for route in all_routes(depth_a) {
+            let Some((mine, _)) = units.enter(ctx) else { break 'all };
+            for e in entries() {
+                if e.n_params() > n_params(&route) { continue }
+                let method = if e.exp.body.is_some() { ["POST", "PUT", "PATCH"][k % 3] } else { ["GET", "DELETE", "GET", "POST"][k % 4] };
+                k += 1;
+                if !mine { continue }
+                let m = MethD { method: method.into(), h: e.id.into(), local: vec![] };
+                check_app(ctx, &AppD { fangs: vec![], items: vec![ItemD::Route { path: route_str(&route), methods: vec![m.clone()] }] }, "single:flat");
+                if !route.is_empty() {
+                    let child = AppD { fangs: vec![], items: vec![ItemD::Route { path: route_str(&route[1..]), methods: vec![m] }] };
+                    check_app(ctx, &AppD { fangs: vec![], items: vec![ItemD::Mount { prefix: format!("/{}", route[0]), app: child }] }, "single:mount1");
+                }
+            }
+        }
+        // every non-empty method subset on one static and one param route
+        for route in [vec!["a".to_string()], vec![":p".to_string(), "b".to_string()]] {
+            for mask in 1u32..32 {
+                let Some((mine, mut rot)) = units.enter(ctx) else { break 'all };
+                if !mine { continue }
+                let ms: Vec<&str> = METHODS.iter().enumerate().filter(|(i, _)| mask & (1 << i) != 0).map(|(_, m)| *m).collect();
+                let methods = ms.iter().map(|m| MethD { method: m.to_string(), h: rot.pick(&route, m).id.into(), local: vec![] }).collect();
+                check_app(ctx, &AppD { fangs: vec![], items: vec![ItemD::Route { path: route_str(&route), methods }] }, "single:method-subset");
+            }
+        }
+
+        // ---- B: route sets x method assignments x declaration shapes x registration orders ----
+        let assignments2: &[[&[&str]; 2]] = if quick { &[[&["GET"], &["GET"]], [&["GET"], &["POST"]], [&["GET", "POST"], &["GET"]]] }
+            else { &[[&["GET"], &["GET"]], [&["GET"], &["POST"]], [&["GET", "POST"], &["GET"]], [&["GET"], &["GET", "POST"]], [&["GET", "POST"], &["GET", "POST"]]] };
+        let routes2 = all_routes(3);
+        for combo in combinations(routes2.len(), 2) {
+            for asg in assignments2 {
+                let Some((mine, mut rot)) = units.enter(ctx) else { break 'all };
+                if !mine { continue }
+                let set = vec![spec(&routes2[combo[0]], asg[0]), spec(&routes2[combo[1]], asg[1])];
+                for (name, a) in shaped(&set, &mut rot, !quick) { check_app(ctx, &a, &format!("pair:{name}")) }
+            }
+        }
+        if !quick {
+            let routes3 = all_routes(2);
+            let assignments3: [[&[&str]; 3]; 3] = [[&["GET"], &["GET"], &["GET"]], [&["GET"], &["POST"], &["GET"]], [&["GET", "POST"], &["GET"], &["POST"]]];
+            for combo in combinations(routes3.len(), 3) {
+                for asg in &assignments3 {
+                    let Some((mine, mut rot)) = units.enter(ctx) else { break 'all };
+                    if !mine { continue }
+                    let set: Vec<c01::RouteSpec> = (0..3).map(|i| spec(&routes3[combo[i]], asg[i])).collect();
+                    for (name, a) in shaped(&set, &mut rot, false) { check_app(ctx, &a, &format!("triple:{name}")) }
+                }
+            }
+            // triples that reach depth 3: flat, first-segment mounts, nested mounts; first registration order
+            let routes3d = all_routes(3);
+            for combo in combinations(routes3d.len(), 3) {
+                if combo.iter().all(|&i| routes3d[i].len() < 3) { continue }
+                let Some((mine, mut rot)) = units.enter(ctx) else { break 'all };
+                if !mine { continue }
+                let set: Vec<c01::RouteSpec> = (0..3).map(|i| spec(&routes3d[combo[i]], if i == 1 { &["POST"] } else { &["GET"] })).collect();
+                for (name, a) in shaped(&set, &mut rot, false) {
+                    if !name.ends_with("#0") { continue }
+                    check_app(ctx, &a, &format!("triple3:{name}"));
+                }
+            }
+        }
+
+        // ---- C: tags and authentication fangs at root / on a mounted child / local to one handler ----
+        let t = |s: &str| FangD::Tag(s.into());
+        let root_fangs: Vec<Vec<FangD>> = vec![vec![], vec![t("t0")], vec![FangD::Jwt], vec![FangD::Basic], vec![t("t0"), FangD::Jwt], vec![FangD::Basic, t("t0")]];
+        let child_fangs: Vec<Vec<FangD>> = vec![vec![], vec![t("t1")], vec![FangD::Jwt], vec![FangD::Basic], vec![t("t1"), FangD::Jwt]];
+        let local_fangs: Vec<Vec<FangD>> = vec![vec![], vec![FangD::Jwt], vec![FangD::Basic]];
+        let routes_c = all_routes(2);
+        let mut sets_c: Vec<Vec<c01::RouteSpec>> = vec![];
+        for r in &routes_c { sets_c.push(vec![spec(r, &["GET", "POST"])]) }
+        for combo in combinations(routes_c.len(), 2) {
+            let (x, y) = (&routes_c[combo[0]], &routes_c[combo[1]]);
+            if quick && x.len() + y.len() > 3 { continue }
+            sets_c.push(vec![spec(x, &["GET"]), spec(y, &["POST"])]);
+            if !quick { sets_c.push(vec![spec(x, &["GET"]), spec(y, &["GET"])]) }
+        }
+        for set in &sets_c {
+            let Some((mine, mut rot)) = units.enter(ctx) else { break 'all };
+            if !mine { continue }
+            for (name, base) in shaped(set, &mut rot, false) {
+                if !(name == "flat#0" || name == "mount1#0" || name == "nested#0" || name == "mount2#0" || (!quick && name == "split-mount#0")) { continue }
+                let n_children = base.items.iter().filter(|i| matches!(i, ItemD::Mount { .. })).count();
+                let n_methods = flatten(&base).1.len();
+                let shape = format!("fangs:{}", name.trim_end_matches("#0"));
+                for rf in &root_fangs { for cf in &child_fangs { for lf in &local_fangs {
+                    if rf.is_empty() && cf.is_empty() && lf.is_empty() { continue }
+                    if n_children == 0 && !cf.is_empty() { continue }
+                    // which child / which handler carries the fang: the first one (quick), each in turn (thorough)
+                    let child_choices: Vec<usize> = if cf.is_empty() || quick { vec![0] } else { (0..n_children).collect() };
+                    let local_choices: Vec<usize> = if lf.is_empty() || quick { vec![0] } else { (0..n_methods).collect() };
+                    for &ci in &child_choices { for &li in &local_choices {
+                        check_app(ctx, &with_fangs(&base, rf, Some((ci, cf.as_slice())), Some((li, lf.as_slice()))), &shape);
+                    } }
+                } } }
+            }
+        }
+        // ---- C2 (thorough): deep pairs under mounts whose applications carry fangs (lookups across mount boundaries, which are
+        //      never compressed away once the fang lists differ) ----
+        if !quick {
+            let routes_d = all_routes(3);
+            for combo in combinations(routes_d.len(), 2) {
+                if routes_d[combo[0]].len() < 3 && routes_d[combo[1]].len() < 3 { continue }
+                let Some((mine, mut rot)) = units.enter(ctx) else { break 'all };
+                if !mine { continue }
+                let set = vec![spec(&routes_d[combo[0]], &["GET"]), spec(&routes_d[combo[1]], &["GET", "POST"])];
+                for (name, base) in shaped(&set, &mut rot, false) {
+                    if !(name == "mount1#0" || name == "nested#0" || name == "mount2#0") { continue }
+                    let n_children = base.items.iter().filter(|i| matches!(i, ItemD::Mount { .. })).count();
+                    let shape = format!("fangs-deep:{}", name.trim_end_matches("#0"));
+                    for rf in [vec![], vec![t("t0")]] { for cf in [vec![t("t1")], vec![FangD::Jwt], vec![FangD::Basic, t("t1")]] { for ci in 0..n_children {
+                        check_app(ctx, &with_fangs(&base, &rf, Some((ci, cf.as_slice())), None), &shape);
+                    } } }
+                }
+            }
+        }
+    }
+
+    dump_schemas(ctx);
+    ctx.extra.insert("sum_sharding_units".into(), json!(if ctx.shard == 0 { units.n } else { 0 }));
+    ctx.extra.insert("max_rss_mib".into(), json!(rss_mib()));
+    ctx.extra.insert("rule".into(), json!("one case = one check of one (application, route, method): the operation's path parameters, query parameters, request body, response statuses, security requirement, references and the request built from the documented operation (plus one case per application for the path/method sets; python adds one case per distinct schema object x signature for Draft 2020-12 validity).  Applications are assembled at run time from a description (route set x method assignment x catalogue handler per (route, method) x declaration shape x registration order x tag / JWT / BasicAuth placement); the document comes from the real Ohkami::__openapi_document_bytes__, requests go through the real Request::read / Router::handle / Response::send of the same Ohkami.  non-trivial = every operation case; collision = the handler takes fewer path params than the route has, or two routes of the application share a param node under different names (`:p` / `:q`), or the route lies under a mount whose prefix has a param (the three situations in which the template's `{name}`s and the operation's parameters are produced by different code)"));
+    ctx.extra.insert("bounds".into(), json!({
+        "segments": SEGS, "param names": "distinct within a route", "catalogue": entries().iter().map(|e| e.id).collect::<Vec<_>>(),
+        "A single route": format!("every catalogue handler on every route of depth <= {depth_a} it fits (params <= route params), flat and under a first-segment mount; all 31 method subsets on /a and /:p/b"),
+        "B route sets": if quick { "all pairs over depth <= 3 x 3 method assignments x all C01 declaration shapes x first and last registration order" } else { "all pairs over depth <= 3 x 5 method assignments x all shapes x all orders; triples over depth <= 2 x 3 assignments x all shapes x 3 orders; all triples over depth <= 3 that reach depth 3 x all shapes, first order" },
+        "B handlers": "one catalogue handler per (route, method), rotating deterministically (seeded by the unit number) through the entries that fit (body extractors only on POST/PUT/PATCH)",
+        "C fangs": format!("route sets of size <= 2 over depth <= 2 ({}) x shapes flat/mount1/mount2/nested{} x root fangs {{-, Tag, JWT, Basic, Tag+JWT, Basic+Tag}} x child fangs {{-, Tag, JWT, Basic, Tag+JWT}} ({}) x local fang {{-, JWT, Basic}} ({}); chains that would need both a Bearer and a Basic Authorization header are generated but skipped (counted)", if quick { "pairs: total depth <= 3" } else { "all" }, if quick { "" } else { "/split-mount" }, if quick { "first child" } else { "each child in turn" }, if quick { "first handler" } else { "each handler in turn" }),
+        "C2 deep fangs": if quick { "-" } else { "pairs reaching depth 3 x shapes mount1/mount2/nested x root {-, Tag} x child {Tag, JWT, Basic+Tag} on each child in turn" },
+        "requests": "one per documented operation built from the document (path values by documented type, required query params, minimal body of required members, Authorization per the first security requirement); one more without credentials when a requirement is documented; one built from the description for every registered pair the document lacks",
+    }));
+}
+
+fn set_local(a: &mut AppD, target: usize, lf: &[FangD], seen: &mut usize) {
+    for it in a.items.iter_mut() {
+        match it {
+            ItemD::Route { methods, .. } => for m in methods.iter_mut() { if *seen == target { m.local = lf.to_vec() } *seen += 1 },
+            ItemD::Mount { app, .. } | ItemD::Inline { app } => set_local(app, target, lf, seen),
+        }
+    }
+}
+
+pub fn replay(ctx: &mut Ctx, case: &Value) {
+    app::pin_clock();
+    let app: AppD = match serde_json::from_value(case["app"].clone()) {
+        Ok(a) => a,
+        Err(e) => { ctx.machinery_error(format!("C15 replay: the witness has no readable `app`: {e}")); return }
+    };
+    check_app(ctx, &app, case["shape"].as_str().unwrap_or("replay"));
+    dump_schemas(ctx);
+}
